@@ -230,6 +230,9 @@ fn lz_decoder_scripts(rep: &mut Report, rng: &mut Rng, n: u64) {
 
 pub fn run_c07(rep: &mut Report, rng: &mut Rng, thorough: bool) {
     run_window_exact(rep, &mut rng.fork(), thorough);
+    // flush calls right before a window move (pending bytes in the match finder), real writer and window model
+    crate::c01::run_flush_window(rep, &mut rng.fork(), thorough, false, "flush-");
+    crate::c01::run_encwin_script(rep, &mut rng.fork(), thorough, false, "flush-");
     run_preset_continuation(rep, &mut rng.fork(), thorough);
     // BCJ2: the four input streams in pieces, the output in reads of 1..7 / 4096 / 70000 bytes
     crate::bcj2::run(rep, rng, thorough);
